@@ -645,6 +645,25 @@ func genC10(g *genCtx) {
 		g.add(&Case{Kind: "meta", Doc: d, Ctx: ctx, Expr: base, Extra: "ast;" + ctx.String() + ";" + hx(variant)})
 		g.add(&Case{Kind: "meta", Doc: d, Ctx: ctx, Expr: base, Extra: "val;" + ctx.String() + ";" + hx(variant)})
 	}
+	// whole expressions of every fragment: the package's tree = the model's tree = the tree the full reference
+	// grammar (Spec/FullGrammar.lean) assigns, with and without namespace maps
+	nsMaps := []map[string]string{nil, nil, {"p": "urn:p", "q": "urn:q", "x": "urn:p"}}
+	nsTests := []string{"a", "p:a", "q:*", "*", "x:b", "@p:k", "@*", "@q:*", "text()", "node()", "comment()", "processing-instruction()", "processing-instruction('t')"}
+	for i := 0; i < g.scale(8000, 80000); i++ {
+		var e string
+		ns := nsMaps[0]
+		switch r.intn(6) {
+		case 0:
+			ns = nsMaps[r.intn(len(nsMaps))]
+			e = r.pick([]string{"", "/", "//", ".//", "../"}) + r.pick(nsTests) + r.pick([]string{"", "/" + r.pick(nsTests), "[" + r.pick(nsTests) + "]", "[" + r.pick(nsTests) + " " + r.pick([]string{"and", "or", "=", "|"}) + " " + r.pick(nsTests) + "]", "//" + r.pick(nsTests)})
+		case 1:
+			toks := genTokens(r)
+			e = joinTokens(toks, func(int) string { return " " })
+		default:
+			e = genAnyExpr(r)
+		}
+		g.add(&Case{Kind: "ast", NS: ns, Expr: e})
+	}
 	// abbreviations vs expansions
 	for i := 0; i < g.scale(6000, 40000); i++ {
 		ab, ex := genAbbrevPair(r)
